@@ -804,6 +804,15 @@ func chunkSegment(init *mp4.InitSegment, seg *mp4.MediaSegment, segMeta segMeta,
 	chunks := make([]chunk, 0, segMeta.newDur/uint32(chunkDur))
 	trackID := init.Moov.Trak.Tkhd.TrackID
 	ch := createChunk(seg.Styp, trackID, segMeta.newNr)
+	// Event messages of the segment (e.g. SCTE-35) are delivered with the first chunk
+	// (Fragment.AddEmsg only inserts into Children, so look there rather than in Fragment.Emsgs)
+	for _, f := range seg.Fragments {
+		for _, c := range f.Children {
+			if emsg, ok := c.(*mp4.EmsgBox); ok {
+				ch.frag.AddEmsg(emsg)
+			}
+		}
+	}
 	chunkNr := 1
 	var accChunkDur uint32 = 0
 	var totalDur = 0
